@@ -41,7 +41,16 @@ def run(rep, tier, seed, proof_ok):
     rep.rule = ("overlap: every ordered selection of 1..4 distinct paths over segments {f,g,h} with 1..3 segments (39 paths; "
                 "quick: all 1-2-path lists, sampled 3-4-path lists; thorough: all ordered 3-lists, sampled 4-lists) plus '/' and "
                 "odd spellings, plus lists over segment names containing characters that sort before '/' (. - space +), given to the real non_terminal_leaves and to the Coq model, and compared with the prefix "
-                "specification; non-trivial = at least two paths sharing a first segment")
+                "specification; non-trivial = at least two paths sharing a first segment; "
+                "programs: random call graphs (cycle / nested eval / both / none; plain calls, keeps, references, methods, two modules) "
+                "evaluated by the real library and by the Coq model, the same graphs with the call of every edge in a random syntactic "
+                "position, overlapping keeps in every order and nesting placement; position sweep: the offending call (closing a cycle "
+                "through a call / keep / reference / method / other module / itself, nested dds.eval, keep under or above an earlier "
+                "keep), at depth 0 or 1, in each of %d syntactic positions where Python executes it during the evaluation (argument, "
+                "keyword, starred argument of a tracked / untracked / builtin call, argument of a call whose result is called or whose "
+                "attribute is called, operand, comprehension, f-string, every statement kind), expected: the error code of the "
+                "offence, nothing executed, no store write; the well-formed twin of every placement must give the result and the "
+                "execution log of plain Python") % len(__import__("c11_positions").POSITIONS)
     P = all_paths(3)
     cases = [[p] for p in P] + [list(t) for t in itertools.permutations(P, 2)]
     trip = list(itertools.permutations(P, 3))
@@ -90,6 +99,12 @@ def run(rep, tier, seed, proof_ok):
         c11_programs.run(rep, tier, seed, proof_ok, rng)
     except ImportError:
         rep.extra["program_part"] = "cycle / nested-eval / full-evaluation part not built yet"
+    pp, ps = rep.extra.get("program_part"), rep.extra.get("position_sweep", {})
+    if isinstance(pp, dict):
+        rep.extra["input_distribution"].update({"call_graphs": pp["call_graphs"], "call_graphs_with_positions": pp["call_graphs_with_positions"],
+                                                "syntactic_positions": ps.get("positions"), "position_sweep_scenarios": ps.get("scenarios"),
+                                                "position_sweep_ill_formed_kinds": ps.get("ill_formed_kinds"),
+                                                "position_sweep_well_formed_kinds": ps.get("well_formed_kinds")})
 
 
 def replay(path):
